@@ -301,12 +301,13 @@ def main():
     evidence = {
         "property_id": pid, "tier": tier, "seed": seed, "level": getattr(mod, "LEVEL", "proof"),
         "coverage": {
-            "obligations": audit["obligations"], "discharged": audit["discharged"],
+            "obligations": max(audit["obligations"], 0), "discharged": audit["discharged"],
             "checker_cmd": "cd lean && lake build Pfl && lake env lean Audit.lean  (#print axioms of every registered theorem)",
             "trusted_base": ["Lean 4.33.0 kernel", "axioms: propext, Classical.choice, Quot.sound only",
                              "Spec definitions in lean/Pfl/Spec", "correspondence harness (harness/*.py, lean/PflDrv)",
                              "CPython sets/dicts/str modelled as lists/strings"],
             "theorems": mod.THEOREMS,
+            "explanation": getattr(mod, "EXPLANATION", "Lean theorems about a faithful model, tied to /repo by differential correspondence; instances decided by verified oracles (see rule)."),
             "evaluations": evals, "distinct_nontrivial": len(keys), "rule": mod.RULE,
             "samples": samples[:3] or [{"note": "no non-trivial sample this run"}],
             "programs": cases, "traces_validated_against_impl": corr,
